@@ -70,6 +70,7 @@ class V:
 @dataclass
 class IntV(V):
     e: z3.ExprRef
+    bits: tuple = None  # (lo, hi): value is a multiple of 2^lo and < 2^hi (tracked through constant masks/shifts; lets `a | b` of disjoint fields be a + b)
 
 
 @dataclass
@@ -187,9 +188,17 @@ class State:
     ghost: dict = field(default_factory=dict)
     attrs: dict = field(default_factory=dict)  # attribute stores performed by the function: "self.x" -> V
     trace: list = field(default_factory=list)  # branch decisions (for path naming)
+    anchors: list = field(default_factory=list)  # instantiation anchors (expressions) supplied by contract code
+    anchor_owner: str = ""  # loop whose invariant supplied the anchors (anchors are scoped to the innermost loop)
 
     def fork(self):
-        return State(dict(self.env), list(self.hyps), dict(self.filepos), dict(self.ghost), dict(self.attrs), list(self.trace))
+        return State(dict(self.env), list(self.hyps), dict(self.filepos), dict(self.ghost), dict(self.attrs), list(self.trace), list(self.anchors), self.anchor_owner)
+
+    def anchor(self, *exprs, cls="unit"):
+        """instantiation anchors: unit (sector) positions by default, cls="byte" for byte positions"""
+        for e in exprs:
+            if not any(e.eq(a) and c == cls for a, c in self.anchors):
+                self.anchors.append((e, cls))
 
 
 @dataclass
@@ -201,6 +210,7 @@ class Obligation:
     path: str = ""
     kind: str = ""
     probes: dict = field(default_factory=dict)
+    anchors: list = field(default_factory=list)
 
 
 @dataclass
@@ -261,7 +271,7 @@ class Engine:
         if tag is not None:
             nm += f"[{tag}]"
         self.obligations.append(
-            Obligation(nm, list(st.hyps), goal, getattr(node, "lineno", 0), path="".join(st.trace), kind=kind, probes=dict(probes or {}))
+            Obligation(nm, list(st.hyps), goal, getattr(node, "lineno", 0), path="".join(st.trace), kind=kind, probes=dict(probes or {}), anchors=list(st.anchors))
         )
 
     def pre(self, st: State, cond, node, tag=None):
@@ -456,7 +466,28 @@ class Engine:
         if isinstance(l, (BytesV, ListV, TupleV, StrV, NoneV)) or isinstance(r, (BytesV, ListV, TupleV, StrV, NoneV)):
             raise Unsupported(f"binop {op} on {type(l).__name__},{type(r).__name__}@{n.lineno}")
         a, b = self.as_int(l, st, n), self.as_int(r, st, n)
-        return IntV(self.int_binop(op, a, b, st, n))
+        lb = l.bits if isinstance(l, IntV) else None
+        rb = r.bits if isinstance(r, IntV) else None
+        bs_, as_ = z3.simplify(b), z3.simplify(a)
+        if op == "BitOr" and not z3.is_int_value(bs_) and not z3.is_int_value(as_):
+            # symbolic | symbolic: exact when the operands occupy disjoint bit ranges (known from constant masks and shifts)
+            if lb and rb and (lb[1] <= rb[0] or rb[1] <= lb[0]):
+                return IntV(a + b, (min(lb[0], rb[0]), max(lb[1], rb[1])))
+            raise Unsupported(f"| with two symbolic operands whose bit ranges are not known to be disjoint@{n.lineno}")
+        res = self.int_binop(op, a, b, st, n)
+        bits = None
+        if op == "BitAnd":
+            mv = bs_ if z3.is_int_value(bs_) else (as_ if z3.is_int_value(as_) else None)
+            if mv is not None and mv.as_long() > 0:
+                m_ = mv.as_long()
+                bits = ((m_ & -m_).bit_length() - 1, m_.bit_length())
+        elif op == "RShift" and lb and z3.is_int_value(bs_):
+            c_ = bs_.as_long()
+            bits = (max(0, lb[0] - c_), max(0, lb[1] - c_))
+        elif op == "LShift" and lb and z3.is_int_value(bs_):
+            c_ = bs_.as_long()
+            bits = (lb[0] + c_, lb[1] + c_)
+        return IntV(res, bits)
 
     def int_binop(self, op, a, b, st, n):
         if op == "Add":
@@ -804,6 +835,11 @@ class Engine:
                 if out is not None:
                     nxt.append((cur, out))
                     continue
+                gb = self.ghost_asserts.get(("before", self._stmt_ord.get(id(s))))
+                if gb is not None:
+                    fact = gb(self, cur)
+                    self.ob("ghost_assert", cur, fact, s, tag="before" + str(self._stmt_ord.get(id(s))))
+                    cur.hyps.append(fact)
                 res = self.stmt(s, cur)
                 ga = self.ghost_asserts.get(self._stmt_ord.get(id(s)))
                 if ga is not None:
@@ -976,6 +1012,12 @@ class Engine:
         for name in list(st.filepos):
             st.filepos.pop(name)
 
+    def _inv(self, spec, st, lname):
+        if st.anchor_owner != lname:
+            st.anchors = []
+            st.anchor_owner = lname
+        return spec.inv(self, st)
+
     def _loop_spec(self, s, kind):
         o = self.ordinal(s)
         spec = self.loops.get((kind, o))
@@ -988,10 +1030,10 @@ class Engine:
         if s.orelse:
             raise Unsupported("while-else")
         self._snapshot_entry(st, s)
-        self.ob(f"{lname}.init", st, spec.inv(self, st), s, tag="")
+        self.ob(f"{lname}.init", st, self._inv(spec, st, lname), s, tag="")
         head = st.fork()
         self._havoc(head, s, spec)
-        head.hyps.append(spec.inv(self, head))
+        head.hyps.append(self._inv(spec, head, lname))
         var0 = spec.variant(self, head)
         c = self.truthy(self.ev(s.test, head))
         body, exit_ = head.fork(), head.fork()
@@ -1003,7 +1045,7 @@ class Engine:
             if out in (None, "continue"):
                 if spec.ghost_step:
                     spec.ghost_step(self, e)
-                self.ob(f"{lname}.preserved", e, spec.inv(self, e), s, tag="")
+                self.ob(f"{lname}.preserved", e, self._inv(spec, e, lname), s, tag="")
                 self.ob(f"{lname}.decreases", e, z3.And(var0 >= 0, spec.variant(self, e) < var0), s, tag="")
             elif out == "break":
                 outs.append((e, None))
@@ -1072,13 +1114,13 @@ class Engine:
             return done
         st.env[iname] = IntV(lo)
         self._snapshot_entry(st, s)
-        self.ob(f"{lname}.init", st, spec.inv(self, st), s, tag="")
+        self.ob(f"{lname}.init", st, self._inv(spec, st, lname), s, tag="")
         head = st.fork()
         self._havoc(head, s, spec)
         i = fresh("i")
         head.env[iname] = IntV(i)
         head.hyps.append(z3.And(lo <= i, z3.Or(i <= hi, i == lo)))
-        head.hyps.append(spec.inv(self, head))
+        head.hyps.append(self._inv(spec, head, lname))
         body, exit_ = head.fork(), head.fork()
         body.hyps.append(i < hi)
         exit_.hyps.append(z3.Not(i < hi))
@@ -1090,7 +1132,7 @@ class Engine:
                 e.env[iname] = IntV(i + 1)
                 if spec.ghost_step:
                     spec.ghost_step(self, e)
-                self.ob(f"{lname}.preserved", e, spec.inv(self, e), s, tag="")
+                self.ob(f"{lname}.preserved", e, self._inv(spec, e, lname), s, tag="")
             elif out == "break":
                 outs.append((e, None))
             else:
@@ -1105,13 +1147,13 @@ class Engine:
         g = f"plen{o}"
         st.ghost[g] = z3.IntVal(0)
         self._snapshot_entry(st, s)
-        self.ob(f"{lname}.init", st, spec.inv(self, st), s, tag="")
+        self.ob(f"{lname}.init", st, self._inv(spec, st, lname), s, tag="")
         head = st.fork()
         spec2 = LoopSpec(spec.inv, spec.variant, spec.shapes, {**spec.ghost_havoc, g: "int"}, 0, spec.ghost_step)
         self._havoc(head, s, spec2)
         plen = head.ghost[g]
         head.hyps.append(z3.And(plen >= 0, plen <= seq.total))
-        head.hyps.append(spec.inv(self, head))
+        head.hyps.append(self._inv(spec, head, lname))
         body, exit_ = head.fork(), head.fork()
         body.hyps.append(plen < seq.total)
         exit_.hyps.append(plen == seq.total)
@@ -1126,7 +1168,7 @@ class Engine:
                 e.ghost[g] = plen + adv
                 if spec.ghost_step:
                     spec.ghost_step(self, e)
-                self.ob(f"{lname}.preserved", e, spec.inv(self, e), s, tag="")
+                self.ob(f"{lname}.preserved", e, self._inv(spec, e, lname), s, tag="")
             elif out == "break":
                 outs.append((e, None))
             else:
